@@ -1141,3 +1141,42 @@ func (fl *Flat) APs(v ssa.Value) []AP {
 
 func viewOrigins(root *ssa.Function, v ssa.Value) []ssa.Value { return flatOf(root).Origins(v) }
 func viewAPs(root *ssa.Function, v ssa.Value) []AP           { return flatOf(root).APs(v) }
+
+// viewLoops: the natural loops of every function of fn's flattened view, nested
+// across splices: a helper's loops lie inside the loops that enclose its call,
+// and those enclosing loops' block sets include the helper's blocks.
+func viewLoops(fn *ssa.Function) []*Loop {
+	fl := flatOf(fn)
+	per := map[*ssa.Function][]*Loop{}
+	var all []*Loop
+	for _, f := range fl.Funcs() {
+		ls := naturalLoops(f)
+		per[f] = ls
+		all = append(all, ls...)
+	}
+	// contexts are created parents first
+	for _, ctx := range fl.Ctxs {
+		if ctx.Call == nil || ctx.Parent == nil {
+			continue
+		}
+		// only the first splice of a helper defines its place
+		if first := fl.byFn[ctx.Fn]; len(first) > 0 && first[0] != ctx {
+			continue
+		}
+		enclosing := innermostLoop(all, ctx.Call.Block())
+		if enclosing == nil {
+			continue
+		}
+		for _, l := range per[ctx.Fn] {
+			if l.Parent == nil {
+				l.Parent = enclosing
+			}
+		}
+		for e := enclosing; e != nil; e = e.Parent {
+			for _, b := range ctx.Fn.Blocks {
+				e.Blocks[b] = true
+			}
+		}
+	}
+	return all
+}
